@@ -4,3 +4,9 @@ VerifStderrSerial Serial;
 static unsigned long verifMillisValue = 0;
 extern "C" unsigned long millis() __attribute__((weak));
 extern "C" unsigned long millis() { return verifMillisValue; }
+
+// Default sink of the guarded BasicZoneProcessor hook (ACE_TIME_VERIF_HOOKS): counts dropped transitions.
+extern "C" {
+long long aceTimeVerifDropped = 0;
+void aceTimeVerifBasicTransitionDropped() { aceTimeVerifDropped++; }
+}
